@@ -193,6 +193,15 @@ func TestDrv_C11(t *testing.T) {
 						pool = vegeta.Metrics{}
 						m, rep = &pool, poolRep
 					}
+					if order == 1 || (order == 0 && cases%2 == 0) {
+						// a periodic report that fires before the first result has arrived reads the still empty Metrics
+						_ = m.Latencies.Quantile(0.99)
+						early := vegeta.NewHDRHistogramPlotReporter(m)
+						if rep != nil {
+							early = rep
+						}
+						_ = early.Report(io.Discard)
+					}
 					for i, v := range arr {
 						m.Add(&vegeta.Result{Seq: uint64(i), Code: 200, Timestamp: time.Unix(1600000000, int64(i)), Latency: time.Duration(v)})
 						if order == 0 && i == n/5 && n >= 10 {
